@@ -328,6 +328,8 @@ def compare(I, op, a, b, node=None):
 
 
 def contains(I, coll, x, node=None):
+    if isinstance(coll, PyList) and getattr(coll, "sym_view", None) is not None:
+        return contains(I, coll.sym_view, x, node)
     """x in coll -> z3 Bool / python bool"""
     if isinstance(coll, SymColl):
         return coll.contains(x)
@@ -414,6 +416,8 @@ def _as_index(v):
 
 
 def getitem(I, obj, key, node=None):
+    if isinstance(obj, PyList) and getattr(obj, "sym_view", None) is not None:
+        return getitem(I, obj.sym_view, key, node)
     if isinstance(obj, tuple) or isinstance(obj, PyList):
         items = list(obj) if isinstance(obj, tuple) else obj.items
         if isinstance(key, SliceV):
@@ -722,6 +726,8 @@ def _len(I, v, node=None):
     if isinstance(v, (tuple, str)):
         return len(v)
     if isinstance(v, PyList):
+        if getattr(v, "sym_view", None) is not None:
+            return _len(I, v.sym_view)
         return len(v.items)
     if isinstance(v, PyDict):
         return len(v.d) + len(v.sym)
@@ -1381,7 +1387,18 @@ def _m_append(I, b, a, kw, node):
 def _m_extend(I, b, a, kw, node):
     if not b.fresh:
         I.ctx.writes.append(("list", b))
-    b.items.extend(I.iter_concrete(a[0]))
+    src = I.as_sequence(a[0])
+    if isinstance(b, PyList) and not isinstance(src, list):
+        # a concrete list extended by a symbolic-length sequence: from now on the object is viewed through `sym_view`
+        # (concrete prefix + symbolic tail); len / indexing / membership / iteration go through the view
+        base = getattr(b, "sym_view", None)
+        if base is not None:
+            raise EngineLimit("second symbolic extend of a list")
+        b.sym_view = seq_concat(list(b.items), src)
+        return None
+    if getattr(b, "sym_view", None) is not None:
+        raise EngineLimit("extend of a list that has a symbolic tail")
+    b.items.extend(src)
 
 
 @ext("list.insert")
@@ -1909,6 +1926,19 @@ def _m_choice(I, b, a, kw, node):
         I.ctx.assume(z3.And(0 <= j, j < ival(items.n)))
         I.ctx.draws.append(("choice", j))
         return items.elem(j)
+    # choice(seq, n) over a sequence of names / None (object array): n draws, each a member of seq (ASSUMED NumPy contract)
+    items0 = I.as_sequence(seq)
+    members = items0 if isinstance(items0, SymSeq) else (
+        SymSeq(len(items0), lambda i, it=list(items0): _pick(it, i), "list") if items0 and any(
+            kind_of(x) == "name" for x in items0) else None)
+    if members is not None and not kw.get("p"):
+        idx = z3.Function(I.ctx.fresh("chn", z3.IntSort()).decl().name() + "_idx", z3.IntSort(), z3.IntSort())
+        q = z3.Int("_chn_q")
+        ln = members.n if not isinstance(members.n, int) else z3.IntVal(members.n)
+        I.ctx.assume(z3.ForAll([q], z3.And(0 <= idx(q), idx(q) < ln)))
+        I.ctx.draws.append(("choice-n", size))
+        return SymSeq(size if isinstance(size, int) else z3.simplify(z3.If(ival(size) < 0, 0, ival(size))),
+                      lambda i, members=members, idx=idx: members.elem(idx(ival(i))), "ndarray-1d")
     # choice(levels, n, p=...) : n draws, each a member of levels
     levels = I.iter_concrete(seq)
     f = z3.Function(I.ctx.fresh("ch", z3.IntSort()).decl().name() + "_f", z3.IntSort(), z3.RealSort())
